@@ -18,11 +18,14 @@ package vanguard
 
 import (
 	"bytes"
+	"errors"
 	"fmt"
 	"net/http"
 	"time"
 
 	"connectrpc.com/connect"
+	"google.golang.org/protobuf/reflect/protoreflect"
+	"google.golang.org/protobuf/reflect/protoregistry"
 )
 
 // This file is only compiled with the "verif" build tag. It exposes
@@ -374,4 +377,123 @@ func VerifPoolOps(ops []VerifPoolOp) []VerifPoolGot {
 		got = append(got, VerifPoolGot{Len: buf.Len(), Cap: buf.Cap(), FromPut: from})
 	}
 	return got
+}
+
+// verifFakeResolver answers each of the four TypeResolver methods with a fixed
+// outcome: 0 found (a value tagged with the resolver's index), 1 not found,
+// 2 another error (tagged with the index).
+type verifFakeResolver struct {
+	index    int
+	outcomes [4]int
+}
+
+type verifTaggedMessageType struct {
+	protoreflect.MessageType
+	index int
+}
+
+type verifTaggedExtensionType struct {
+	protoreflect.ExtensionType
+	index int
+}
+
+type verifResolverError struct{ index int }
+
+func (e verifResolverError) Error() string { return fmt.Sprintf("resolver %d failed", e.index) }
+
+func (f verifFakeResolver) outcome(method int) error {
+	switch f.outcomes[method] {
+	case 0:
+		return nil
+	case 1:
+		return protoregistry.NotFound
+	default:
+		return verifResolverError{f.index}
+	}
+}
+
+func (f verifFakeResolver) FindMessageByName(protoreflect.FullName) (protoreflect.MessageType, error) {
+	if err := f.outcome(0); err != nil {
+		return nil, err
+	}
+	return verifTaggedMessageType{index: f.index}, nil
+}
+
+func (f verifFakeResolver) FindMessageByURL(string) (protoreflect.MessageType, error) {
+	if err := f.outcome(1); err != nil {
+		return nil, err
+	}
+	return verifTaggedMessageType{index: f.index}, nil
+}
+
+func (f verifFakeResolver) FindExtensionByName(protoreflect.FullName) (protoreflect.ExtensionType, error) {
+	if err := f.outcome(2); err != nil {
+		return nil, err
+	}
+	return verifTaggedExtensionType{index: f.index}, nil
+}
+
+func (f verifFakeResolver) FindExtensionByNumber(protoreflect.FullName, protoreflect.FieldNumber) (protoreflect.ExtensionType, error) {
+	if err := f.outcome(3); err != nil {
+		return nil, err
+	}
+	return verifTaggedExtensionType{index: f.index}, nil
+}
+
+// VerifFallbackResolve runs one method (0 FindMessageByName, 1 FindMessageByURL,
+// 2 FindExtensionByName, 3 FindExtensionByNumber) of a fallbackResolver made of fake
+// resolvers with the given outcomes. found is the index of the resolver whose value
+// was returned, or -1; errKind is 0 (no error), 1 (NotFound) or 2 (the error of
+// resolver errIndex).
+func VerifFallbackResolve(outcomes [][4]int, method int) (found, errKind, errIndex int) {
+	resolvers := make(fallbackResolver, len(outcomes))
+	for i, o := range outcomes {
+		resolvers[i] = verifFakeResolver{index: i, outcomes: o}
+	}
+	var value any
+	var err error
+	switch method {
+	case 0:
+		value, err = resolvers.FindMessageByName("x.Y")
+	case 1:
+		value, err = resolvers.FindMessageByURL("type.googleapis.com/x.Y")
+	case 2:
+		value, err = resolvers.FindExtensionByName("x.ext")
+	default:
+		value, err = resolvers.FindExtensionByNumber("x.Y", 7)
+	}
+	found, errIndex = -1, -1
+	if err != nil {
+		var re verifResolverError
+		if errors.As(err, &re) {
+			return -1, 2, re.index
+		}
+		if errors.Is(err, protoregistry.NotFound) {
+			return -1, 1, -1
+		}
+		return -1, 3, -1
+	}
+	switch v := value.(type) {
+	case verifTaggedMessageType:
+		found = v.index
+	case verifTaggedExtensionType:
+		found = v.index
+	}
+	return found, 0, -1
+}
+
+// VerifNewFakeResolver returns a TypeResolver whose four methods have the given
+// fixed outcomes (see verifFakeResolver); a found message is a dynamic message of
+// the named type from the global registry.
+func VerifNewFakeResolver(outcomes [4]int) TypeResolver {
+	return verifRealisticResolver{verifFakeResolver{outcomes: outcomes}}
+}
+
+type verifRealisticResolver struct{ verifFakeResolver }
+
+func (f verifRealisticResolver) FindMessageByName(name protoreflect.FullName) (protoreflect.MessageType, error) {
+	if err := f.outcome(0); err != nil {
+		return nil, err
+	}
+	return protoregistry.GlobalTypes.FindMessageByName(name)
 }
